@@ -12,6 +12,7 @@ SIG = {'int': 'xxx', 'root': 'xd', 'prim': 'xd', 'num': 'sd'}
 encode = default_encode(SIG)
 decode = default_decode(SIG)
 TASK_REQS = 1500
+EXH_SCALE = 0.25   # binary gcd is slow: narrower quick-tier slices in the in-process sweeps
 RULE = ('Integer (div_floor, mod_floor, div_rem, div_mod_floor, gcd, lcm, is_multiple_of, is_even/odd), Roots (sqrt, cbrt, nth_root '
         'with degrees 1..8, 40, 63..65, BITS-1..BITS+1, u32::MAX and random), Euclid, CheckedEuclid, Signed, PrimInt, Bounded, '
         'Zero/One, Num, Pow, MulAdd(Assign) and the Checked/Wrapping/Saturating/Overflowing forwarders, all called through the '
